@@ -6,6 +6,7 @@ import Driver.OpsPar
 import Driver.OpsSql
 import Driver.OpsSort
 import Driver.OpsJoin
+import Driver.OpsLoad
 
 open Lean Df.Codec
 
@@ -26,6 +27,8 @@ def ops : List (String × (Json → R Json)) :=
    ("numkey", Df.Ops.opNumKey),
    ("sort", Df.Ops.opSort),
    ("join", Df.Ops.opJoin),
+   ("hdr", Df.Ops.opHdr),
+   ("wrap", Df.Ops.opWrap),
    ("ping", fun j => do return Json.mkObj [("ok", encPkg (← decPkg (← j.getObjVal? "pkg")))])]
 
 def handle (line : String) : String :=
